@@ -16,10 +16,16 @@ structure Int where
   t : Nat                 -- instant of Express
   life : Nat              -- lifetime
 
+/-- `a` is a (non-strict) prefix of `b` -/
+def isPre : Name → Name → Bool
+  | [], _ => true
+  | _ :: _, [] => false
+  | a :: as, b :: bs => decide (a = b) && isPre as bs
+
 /-- does Data `(name, dig)` satisfy the Interest?  same name, or longer only with CanBePrefix,
     and the implicit digest, if requested, equals the Data's digest -/
 def satisfies (i : Int) (name : Name) (dig : Bytes) : Bool :=
-  (if i.cbp then i.node.isPrefixOf name else decide (i.node = name)) &&
+  (if i.cbp then isPre i.node name else decide (i.node = name)) &&
   (match i.dig with | some d => decide (d = dig) | none => true)
 
 /-- a timeout at instant `t` is not early -/
@@ -28,7 +34,7 @@ def timeoutOk (i : Int) (t : Nat) : Bool := i.t + i.life ≤ t
 /-- longest prefix among the attached handlers -/
 def lpm (fib : List (Name × Nat)) (name : Name) : Option (Name × Nat) :=
   fib.foldl (fun best e =>
-    if e.1.isPrefixOf name then
+    if isPre e.1 name then
       match best with
       | none => some e
       | some b => if b.1.length < e.1.length then some e else some b
